@@ -104,6 +104,9 @@ impl Prop for C04 {
     fn run(&self, dom: usize, idx: u64, cx: &mut Cx) {
         run_returned("C04", &self.sets[dom], idx, cx, &gen);
     }
+    fn abort_is_violation(&self) -> bool {
+        true
+    }
     fn rule(&self) -> String {
         "sweep: every title x every qualifying word of its public tokenisation (>= 5 characters, all alphabetic, >= 3 distinct) x ALL single edits of the normalised word: every position x every unchanged lower-case letter of the script for substitutions and insertions, every deletion, every transposition of unequal neighbours; the edited word is the whole query. Every edit is non-trivial; duplicates among the edits of one title are removed.".into()
     }
